@@ -38,8 +38,15 @@ def main():
     os.chdir(tempfile.mkdtemp(prefix="c20w_", dir=nsgenv.BUILD))
     # a first, throw-away start tells which hosts are random-start candidates in this scenario; the
     # probed configuration then mixes fixed hosts (one of them a start candidate), 'random' and known hosts
-    d0 = nsgenv.start(cfg, seed=seed)
-    d0.g._initialize()
+    # (that first coordinator is started on a configuration WITHOUT a Defender section - an attacker-only game hosted earlier in the
+    # same process: nothing of it - not even what it concluded about the roles - may reach the games that follow)
+    import copy
+    cfg0 = copy.deepcopy(cfg)
+    cfg0["coordinator"]["agents"].pop("Defender", None)
+    d0 = nsgenv.start(cfg0, seed=seed)
+    d0.settle()                                  # runs its start-up to the point where it serves
+    if not hasattr(d0.g, "hosts_to_start"):
+        d0.g._initialize()
     cands = sorted(str(h) for h in d0.g.hosts_to_start)
     others = sorted(str(h) for h in d0.g._ip_to_hostname if str(h) not in cands)
     d0.close()
@@ -101,6 +108,10 @@ def play(cfg, seed, episodes, nsteps, defender, path, peers=None):
         exchange(addr, nsgenv.join("alice%d" % i, "Attacker"))
     exchange(b, nsgenv.join("dora", "Defender"))
     drain()
+    join_problems = [f"join of agent {lab} (the configuration defines its role) answered {doc.get('status')}: {str(doc.get('message'))[:120]}"
+                     for lab, doc in transcript if isinstance(doc, dict) and "CREATED" not in str(doc.get("status"))]
+    if len(transcript) != 4:
+        join_problems.append(f"{len(transcript)} of 4 joins were answered once all required players had joined")
     for ep in range(episodes):
         # requests that are refused: the refusal texts are part of the responses and must not depend on the process either
         # (several required parameters missing at once, unknown parameters, an unsupported type, text that is not JSON)
@@ -153,7 +164,7 @@ def play(cfg, seed, episodes, nsteps, defender, path, peers=None):
             exchange(a, msg("ResetGame", request_trajectory="True") if i == 0 else msg("ResetGame"))
         exchange(b, msg("ResetGame"))
         drain()
-    errors = [str(e) for e in d.task_errors]
+    errors = [str(e) for e in d.task_errors] + join_problems
     out = {"hash": g._CONFIG_FILE_HASH, "transcript": transcript, "errors": errors,
            "ip_mapping": sorted((str(k), str(v)) for k, v in g._ip_mapping.items())}
     d.close()
